@@ -40,7 +40,7 @@ noncomputable instance : SpaceDist.SphereNum ℝ := ⟨sphereDistReal⟩
 
 namespace NumR
 @[simp] theorem ofNat_eq (n : Nat) : (Num.ofNat n : ℝ) = (n : ℝ) := rfl
-@[simp] theorem ofNat_lit (n : Nat) : (@OfNat.ofNat ℝ n (Num.instOfNat n) : ℝ) = (n : ℝ) := rfl
+theorem ofNat_lit (n : Nat) : (@OfNat.ofNat ℝ n (Num.instOfNat n) : ℝ) = (n : ℝ) := rfl
 @[simp] theorem ofDec_eq (m e : Nat) : (Num.ofDec m e : ℝ) = (m : ℝ) / (10 : ℝ) ^ e := rfl
 @[simp] theorem pi_eq : (Num.pi : ℝ) = Real.pi := rfl
 @[simp] theorem abs_eq (x : ℝ) : Num.abs x = |x| := rfl
